@@ -1298,3 +1298,26 @@ def create_delete_race_cases(ks=range(0, 14), prefix="cdr"):
                     ops += ["DS " + Racy]
             cases.append(("%s-k%d-v%d" % (prefix, k, variant), ops))
     return cases
+
+
+def control_enum_cases(depth, prefix="ce"):
+    """One topic name, one subscription name: EVERY sequence (up to the given length) over create / delete of both,
+    publish, pull, ack, expiry, get and list - on the bare server and after "create topic; create subscription" -
+    followed by probes of every read operation and a drain.  Order-specific defects of the lifecycle (delete the
+    topic before the subscription, re-create a name, publish with nothing attached, ...) all lie in here."""
+    T, Sn = hx(tname("p", "t")), hx(sname("p", "s"))
+    alpha = {
+        "ct": "CT " + T, "dt": "DT " + T, "cs": "CS %s %s 10 ~" % (Sn, T), "ds": "DS " + Sn,
+        "pub": "PUB %s 1 6d 0" % T, "pull": "PULL %s 10 1" % Sn, "ack": "ACK %s 1 @0" % Sn,
+        "adv": "ADV %d" % (10200 * MS), "gs": "GS " + Sn, "lts": "LTS %s 0 -" % T,
+    }
+    keys = list(alpha)
+    probes = ["GS " + Sn, "GT " + T, "LTS %s 0 -" % T, "LS %s 0 -" % hx("projects/p"), "LT %s 0 -" % hx("projects/p"),
+              "PUB %s 1 7a 0" % T, "STATS " + Sn, "PULL %s 10 1" % Sn]
+    cases = []
+    for pre_name, pre in (("", []), ("ct_cs_", ["ct", "cs"])):
+        for d in range(1, depth + 1):
+            for seq in enum_sequences(d, keys):
+                ops = ["SEED %d" % (len(cases) % 17)] + [alpha[k] for k in pre + list(seq)] + probes
+                cases.append(("%s-%s%s" % (prefix, pre_name, "-".join(seq)), with_drain(ops)))
+    return cases
